@@ -387,18 +387,27 @@ def run(db: DB, rep: Report) -> None:
     # ---- D4 --------------------------------------------------------------------
     rep.rule("D4", "one activity per update", 2)
     ok = False
-    for n in walk_no_nested(tn.node):
-        if isinstance(n, ast.If) and isinstance(n.test, ast.Compare) and \
-                isinstance(n.test.comparators[0], ast.Constant) and n.test.comparators[0].value == "Body" \
-                and any("make_update" in norm(s) for s in n.body):
-            names = [norm(s) for s in n.body]
+    d4_found = False
+    for g_ in tn.cls.methods.values():
+        for n in walk_no_nested(g_.node):
+            # the block that adds make_update(): an arm of the dispatch or a helper's body
+            blk = None
+            if isinstance(n, ast.If) and any("make_update()" in norm(s) for s in n.body):
+                blk = n.body
+            elif n is g_.node and any("make_update()" in norm(s) for s in g_.node.body):
+                blk = g_.node.body
+            if blk is None:
+                continue
+            d4_found = True
+            names = [norm(s) for s in blk]
             iu = [i for i, s in enumerate(names) if "make_update()" in s]
             ib = [i for i, s in enumerate(names) if "graphics.make_body()" in s]
             ok = len(iu) == 1 and len(ib) == 1 and ib[0] == iu[0] + 1
     rep.check("D4", ok, db.loc(tn.node), tn.short, "update-then-activity",
               "the update arm adds make_update() and then graphics.make_body(), once each",
               "the arm of __trans_nodes that emits the update does not emit exactly one "
-              "graphics.make_body() right after it: activities and updates no longer correspond one to one")
+              "graphics.make_body() right after it: activities and updates no longer correspond one to one",
+              decided=d4_found)
     mb = G.methods["make_body"]
 
     def is_act(n):
